@@ -1,13 +1,15 @@
 #!/bin/bash
 # Runs the repository's pinned baseline suite (no build tags = guard off) and
 # verifies that every test of /root/.vp/BASELINE.json "stable_pass" passes.
+# VERIF_REPO selects the tree (default /repo).
 export GOFLAGS=-mod=mod GOPROXY=off GOSUMDB=off GOTOOLCHAIN=local
-cd /repo || exit 2
-go test -json -vet=off -count=1 -timeout 25m ./... > /tmp/verif-baseline.json 2>/dev/null
+cd "${VERIF_REPO:-/repo}" || exit 2
+export BJ=$(mktemp /tmp/verif-baseline-XXXXXX.json)
+go test -json -vet=off -count=1 -timeout 25m ./... > "$BJ" 2>/dev/null
 python3 - <<'PY'
-import json,sys
+import json,sys,os
 passed=set()
-for l in open('/tmp/verif-baseline.json'):
+for l in open(os.environ['BJ']):
     try: e=json.loads(l)
     except Exception: continue
     if e.get('Action')=='pass' and e.get('Test') and '/' not in e['Test']:
@@ -19,5 +21,5 @@ for m in missing: print('  MISSING',m)
 sys.exit(1 if missing else 0)
 PY
 rc=$?
-rm -f /tmp/verif-baseline.json
+rm -f "$BJ"
 exit $rc
